@@ -941,3 +941,60 @@ def chain_test_rules(rep, prog, rule="CHAIN.test"):
                 "through all nodes (e.g. 0 -> 2 -> 1) takes the shortcut and is answered with the class of the chain 0 -> 1 -> ... -> p-1" % fmt(t)[:120])
     else:
         rep.unk(rule, fwhere(f), "is_chain_graph(A) = %s is not the comparison with chain_graph(len(A)); whether it accepts exactly that graph is not decided" % fmt(t)[:120])
+
+
+NONE_METHODS = {"sort", "reverse", "append", "extend", "insert", "remove", "clear", "update", "add", "discard", "shuffle", "difference_update",
+                "intersection_update", "symmetric_difference_update", "fill", "setdefault_"}
+
+
+def python_traps(rep, prog, qnames, rule="TRAP"):
+    """Python / numpy idioms that run without an error and mean something else, looked for in every function the check analysed:
+    np.all / np.any of a generator expression (always True); a value taken from a method that returns None (`x = x.sort()`,
+    `rng.shuffle(...)` assigned); `is` / `is not` against a literal other than None / True / False (identity of ints and strings
+    is an implementation detail); np.max / np.min called with two arrays (the second is the axis).  Zero findings is the expected
+    count; the inspected sites are counted."""
+    n = 0
+    bad = 0
+    for q in sorted(qnames):
+        f = prog.funcs.get(q)
+        if f is None or f.module.name.startswith("drf"):
+            continue
+        for node in ast.walk(f.node):
+            if isinstance(node, ast.Call):
+                d = dotted_of(node.func) or ""
+                if d in ("np.all", "np.any", "numpy.all", "numpy.any", "np.alltrue", "np.sometrue") and node.args:
+                    n += 1
+                    if isinstance(node.args[0], ast.GeneratorExp):
+                        bad += 1
+                        rep.bad(rule + ".all-of-generator", fwhere(f, node), "`%s` is the truth value of a generator object (always True), not of its elements" % norm(node)[:80])
+                if d in ("np.max", "np.min", "np.amax", "np.amin", "numpy.max", "numpy.min", "numpy.amax", "numpy.amin") and len(node.args) >= 2:
+                    n += 1
+                    if not isinstance(node.args[1], (ast.Constant, ast.Name, ast.Tuple, ast.UnaryOp)):
+                        bad += 1
+                        rep.bad(rule + ".max-of-two", fwhere(f, node), "`%s`: the second positional argument of np.max / np.min is the axis, not another array "
+                                "(np.maximum / np.minimum compare two arrays)" % norm(node)[:80])
+            if isinstance(node, (ast.Assign, ast.AnnAssign, ast.Return)) and isinstance(getattr(node, "value", None), ast.Call) and isinstance(node.value.func, ast.Attribute) \
+                    and node.value.func.attr in NONE_METHODS:
+                base = dotted_of(node.value.func.value) or ""
+                if base.split(".")[0] in ("np", "numpy", "pd", "pandas", "itertools", "functools", "copy", "warnings", "os") or base in ("np.random", "numpy.random") and node.value.func.attr != "shuffle":
+                    continue
+                if isinstance(node, ast.Return) and node.value.func.attr in ("update", "add", "append", "remove", "insert", "extend"):
+                    # `return self.cache.update(...)`-style returns of None are odd but explicit; only assignments lose a value silently
+                    continue
+                n += 1
+                bad += 1
+                rep.bad(rule + ".none-returning", fwhere(f, node), "`%s`: .%s() works in place and returns None - the name on the left is None afterwards" % (
+                    norm(node)[:80], node.value.func.attr))
+            if isinstance(node, ast.Compare):
+                for op, c in zip(node.ops, node.comparators):
+                    if isinstance(op, (ast.Is, ast.IsNot)):
+                        n += 1
+                        lit = (isinstance(c, ast.Constant) and c.value is not None and not isinstance(c.value, bool) and c.value is not Ellipsis) or \
+                            isinstance(c, (ast.List, ast.Tuple, ast.Dict, ast.Set))
+                        if lit:
+                            bad += 1
+                            rep.bad(rule + ".is-literal", fwhere(f, node), "`%s` compares identity with a literal: whether equal ints / strings / containers are the same object "
+                                    "is an implementation detail (small-int cache, interning)" % norm(node)[:80])
+    if not bad:
+        rep.ok(rule, {"file": "-", "line": 0, "function": "(%d functions)" % len(qnames), "construct": "python / numpy traps"},
+               "%d candidate sites in the analysed functions, none is one of the known silent traps" % n)
